@@ -70,7 +70,8 @@ type HookBehaviour struct {
 type Step struct {
 	Do             string            `json:"do"`
 	Caller         string            `json:"caller,omitempty"` // asynchronous call under this name; join with do=await
-	Env            string            `json:"env,omitempty"`    // environment alias
+	ExpectTimeout  bool              `json:"expect_timeout,omitempty"`
+	Env            string            `json:"env,omitempty"` // environment alias
 	Wf             string            `json:"wf,omitempty"`
 	Vars           map[string]string `json:"vars,omitempty"`
 	Op             string            `json:"op,omitempty"`
@@ -105,7 +106,7 @@ type Runner struct {
 
 	mu         sync.Mutex
 	ungated    map[string]bool // gates removed by the scenario: late arrivals pass
-	hookN    map[string]int // invocations of each probe hook in the current scenario
+	hookN      map[string]int  // invocations of each probe hook in the current scenario
 	scn        *Scenario
 	envAlias   map[string]string // real env id -> alias
 	aliasEnv   map[string]string // alias -> real id
@@ -594,7 +595,9 @@ func (r *Runner) step(st *Step) {
 			}
 			r.emit("ApiReply", "call", "control", "env", st.Env, "op", st.Op, "code", code(err), "st", stt, "rn", rn,
 				"errtext", errText(err), "caller", st.Caller, "timeout", ctx.Err() != nil)
-			r.taint(ctx)
+			if !st.ExpectTimeout { // (a client deadline the scenario sets on purpose does not spoil the run)
+				r.taint(ctx)
+			}
 		})
 	case "destroy":
 		r.emit("Api", "call", "destroy", "env", st.Env, "force", st.Force, "allow_in_running", st.AllowInRunning, "keep_tasks", st.KeepTasks, "caller", st.Caller)
